@@ -164,10 +164,12 @@ fn build(cfg: &Cfg, chooser: Chooser, track: bool) -> Net {
     Net { w, nodes, addrs, servers: cfg.s }
 }
 
+/// (the unsalted mutable item is written with sequence number 0 - BEP44's first version - and the
+/// reader's own older item with -1: sequence numbers are signed)
 fn issue_put(w: &mut World, node: usize, kind: usize) -> usize {
     match kind {
         0 => w.call_put_immutable(node, IMM.to_vec()),
-        1 => w.call_put_mutable(node, MutableItem::new(&krpc::signing_key(0xC1), b"c01 mutable", 7, None), None),
+        1 => w.call_put_mutable(node, MutableItem::new(&krpc::signing_key(0xC1), b"c01 mutable", 0, None), None),
         2 => w.call_put_mutable(node, MutableItem::new(&krpc::signing_key(0xC1), b"c01 salted", 9, Some(SALT)), None),
         3 => w.call_announce_peer(node, INFO.into(), Some(4242)),
         4 => w.call_announce_peer(node, INFO.into(), None),
@@ -181,7 +183,7 @@ fn issue_put(w: &mut World, node: usize, kind: usize) -> usize {
 fn issue_own_put(w: &mut World, node: usize, kind: usize) -> usize {
     match kind {
         0 => w.call_put_immutable(node, IMM.to_vec()),
-        1 => w.call_put_mutable(node, MutableItem::new(&krpc::signing_key(0xC1), b"c01 older", 6, None), None),
+        1 => w.call_put_mutable(node, MutableItem::new(&krpc::signing_key(0xC1), b"c01 older", -1, None), None),
         2 => w.call_put_mutable(node, MutableItem::new(&krpc::signing_key(0xC1), b"c01 older salted", 8, Some(SALT)), None),
         3 => w.call_announce_peer(node, INFO.into(), Some(5151)),
         4 => w.call_announce_peer(node, INFO.into(), None),
@@ -207,7 +209,7 @@ fn found(r: Option<&CallResult>, kind: usize, writer_addr: SocketAddrV4) -> bool
     match (kind, r) {
         (0, Some(CallResult::Bytes(Some(v)))) => v == IMM,
         (6, Some(CallResult::Bytes(Some(v)))) => *v == big_imm(),
-        (1, Some(CallResult::Mutables(items))) => items.iter().any(|i| i.key() == &pk && i.seq() == 7 && i.value() == b"c01 mutable" && i.salt().is_none()),
+        (1, Some(CallResult::Mutables(items))) => items.iter().any(|i| i.key() == &pk && i.seq() == 0 && i.value() == b"c01 mutable" && i.salt().is_none()),
         (2, Some(CallResult::Mutables(items))) => items.iter().any(|i| i.key() == &pk && i.seq() == 9 && i.value() == b"c01 salted" && i.salt() == Some(SALT)),
         (3, Some(CallResult::Peers(b))) => b.iter().flatten().any(|p| *p == SocketAddrV4::new(*writer_addr.ip(), 4242)),
         (4, Some(CallResult::Peers(b))) => b.iter().flatten().any(|p| *p == writer_addr),
